@@ -74,6 +74,7 @@ type fakeIdp struct {
 	tokenDuration time.Duration
 	sidRequired   bool
 	fixedSid      string
+	sidLogins     map[string]int
 	discoIssParam bool
 	acrSupported  []string
 	locSupported  []string
@@ -262,12 +263,14 @@ func (ip *fakeIdp) token(w http.ResponseWriter, r *http.Request) {
 	if call.Grant == "refresh_token" {
 		ip.usedRefresh[call.RefreshToken]++
 	}
-	ip.inflight++
-	if ip.inflight > ip.maxInflight {
-		ip.maxInflight = ip.inflight
+	if call.Grant == "refresh_token" { // C07 speaks about refresh grants; a code redemption of another login may overlap with one
+		ip.inflight++
+		if ip.inflight > ip.maxInflight {
+			ip.maxInflight = ip.inflight
+		}
+		defer func() { ip.mu.Lock(); ip.inflight--; ip.mu.Unlock() }()
 	}
 	ip.mu.Unlock()
-	defer func() { ip.mu.Lock(); ip.inflight--; ip.mu.Unlock() }()
 	if ip.gate != nil {
 		if flt := ip.gate("token:"+call.Grant, f); flt != nil {
 			if flt.lost {
@@ -334,8 +337,17 @@ func (ip *fakeIdp) token(w http.ResponseWriter, r *http.Request) {
 			idt = ip.sign(t)
 		}
 		at := ip.newAccess(sub, iat, exp)
-		rt := "rt-" + req.Sid + "-0"
-		ip.refresh[rt] = &rtData{sid: req.Sid, sub: sub, gen: 0}
+		// one refresh-token family per LOGIN (a second login on the same provider session gets tokens of its own)
+		if ip.sidLogins == nil {
+			ip.sidLogins = map[string]int{}
+		}
+		ip.sidLogins[req.Sid]++
+		fam := req.Sid
+		if n := ip.sidLogins[req.Sid]; n > 1 {
+			fam = req.Sid + "~" + strconv.Itoa(n)
+		}
+		rt := "rt-" + fam + "-0"
+		ip.refresh[rt] = &rtData{sid: fam, sub: sub, gen: 0}
 		ip.accessIdx[at] = 0
 		ip.idIdx[idt] = 0
 		ip.issuedPairs = append(ip.issuedPairs, [2]string{at, rt})
